@@ -12,6 +12,7 @@ import (
 func init() {
 	vRegister("vC47_history", vC47_history)
 	vRegister("vC47_step", vC47_step)
+	vRegister("vC47_complete", vC47_complete)
 	vRegister("vC47_buckets", vC47_buckets)
 	vRegister("vC47_sanitize", vC47_sanitize)
 	vRegister("vC47_probes", vC47_probes)
@@ -413,6 +414,111 @@ func vC47_step() {
 	if reanchored {
 		vCover("half-open-entered")
 	}
+	vCover("end")
+}
+
+// ---------------------------------------------------------------------------------------------
+// the completion half of Execute on its own: a call that was admitted EARLIER (while closed, or as a probe) finishes
+// now, when the breaker may meanwhile be in ANY state - in particular Open (other callers opened it) or HalfOpen.
+// Real record(success) (+ release() if the call holds a probe token) from an arbitrary state; expected: the reference
+// transition relation - Open stays Open with its deadline untouched, only a half-open sample below the threshold
+// closes, a sample at/above the threshold opens.
+// ---------------------------------------------------------------------------------------------
+func vC47_complete() {
+	n := vCase("buckets")
+	dur := int64(vCase("bucketNanos"))
+	max := vCase("halfOpenMax")
+	rate := vNondetFloat64("failureRate")
+	vAssume(rate >= 0 && rate <= 1)
+	minReq := vNondetInt("minRequests")
+	vAssume(minReq >= 1 && minReq <= 8)
+	openTimeout := vNondetInt64("openTimeout")
+	vAssume(openTimeout > 0 && openTimeout < 1<<40)
+	vC47_now = 0
+	b := NewCircuitBreaker(WithFailureRate(rate), WithMinRequests(minReq), WithOpenTimeout(time.Duration(openTimeout)),
+		WithWindow(time.Duration(dur*int64(n)), n), WithHalfOpenMaxCalls(max), WithClock(vC47_clock))
+	bw := b.buckets
+	cursor := vNondetInt("cursor")
+	vAssume(cursor >= 0 && cursor < n)
+	last := vNondetInt64("lastUpdate")
+	vAssume(last >= 0 && last < 1<<40)
+	bw.cursor, bw.lastUpdate = cursor, last
+	var succOf, failOf [3]uint64
+	for j := 0; j < n; j++ {
+		i := ((cursor-j)%n + n) % n
+		s, f := vNondetUint64("succ"), vNondetUint64("fail")
+		vAssume(s <= 1 && f <= 1)
+		bw.buf[i] = bucket{succ: s, fail: f, start: last - int64(j)*dur}
+		succOf[j], failOf[j] = s, f
+	}
+	st := State(vChoose("state", 3))
+	until := vNondetInt64("openUntil")
+	vAssume(until >= 0 && until < 1<<41)
+	held := vNondetInt("tokensHeld")
+	vAssume(held >= 0 && held <= max)
+	holdsToken := vNondetBool("thisCallHoldsAToken")
+	vAssume(!holdsToken || held >= 1)
+	b.state.Store(int32(st))
+	b.openUntil.Store(until)
+	for i := 0; i < max; i++ {
+		if i < held {
+			b.semCh <- struct{}{}
+		}
+	}
+	now := vNondetInt64("now")
+	vAssume(now >= last && now < 1<<41)
+	vC47_now = now
+	success := vNondetBool("success")
+
+	b.record(success)
+	if holdsToken {
+		b.release()
+	}
+
+	// ---- expected
+	postState, postUntil := st, until
+	var ws, wf uint64
+	steps := (now - last) / dur
+	for j := 0; j < n; j++ {
+		if int64(j)+steps < int64(n) {
+			ws += succOf[j]
+			wf += failOf[j]
+		}
+	}
+	if success {
+		ws++
+	} else {
+		wf++
+	}
+	if total := ws + wf; total >= uint64(minReq) {
+		if float64(wf)/float64(total) >= rate {
+			if st != Open {
+				postState, postUntil = Open, now+openTimeout
+				vCover("opened")
+			}
+		} else if st == HalfOpen {
+			postState = Closed
+			ws, wf = 0, 0
+			vCover("closed-again")
+		}
+	}
+	if st == Open {
+		vAssert(b.State() == Open && b.openUntil.Load() == until, "an open breaker stays open, with its deadline untouched, whatever outcome a call admitted earlier records")
+		if success {
+			vCover("straggler-success-while-open")
+		}
+	}
+	vAssert(b.State() == postState, "recording an outcome moves the breaker only along closed/half-open -> open (threshold reached) and half-open -> closed (sample below threshold)")
+	if postState == Open {
+		vAssert(b.openUntil.Load() == postUntil, "the open period ends openTimeout after the transition to open (and is not extended while open)")
+	}
+	gs, gf := bw.totalsLocked()
+	vAssert(gs == ws && gf == wf, "the window holds the outcomes of the buckets still inside it plus the new one (none after closing)")
+	want := held
+	if holdsToken {
+		want--
+	}
+	vAssert(len(b.semCh) == want, "a completing probe returns exactly its own token")
 	vCover("end")
 }
 
